@@ -31,7 +31,9 @@ def setup_equipment(h):
     import secsgem.secs.variables as var
 
     h.status_variables.update({10: secsgem.gem.StatusVariable(10, "sv", "u", var.U4, False)})
-    h.data_values.update({20: secsgem.gem.DataValue(20, "dv", var.U4, False)})
+    # dv is a text variable: its value 0 is the empty text (an empty value is a value: it takes its place in the report)
+    h.data_values.update({20: secsgem.gem.DataValue(20, "dv", var.String, False)})
+    h.data_values[20].value = DVTEXT[0]
     h.collection_events.update({100: secsgem.gem.CollectionEvent(100, "c1", [20]),
                                 200: secsgem.gem.CollectionEvent(200, "c2", [])})
 
@@ -51,13 +53,16 @@ def body_of(inp):
     raise ValueError(k)
 
 
+DVTEXT = {0: "", 1: "v"}
+
+
 def rpt_list(item):
     """S6F16/S6F11 body -> [{'r':..,'vals':[..]}]"""
     p = e5.plain(item)
     out = []
     for rp in p[2]:
         vals = rp[1]
-        out.append({"r": RNAME.get(rp[0], f"?{rp[0]}"), "vals": list(vals)})
+        out.append({"r": RNAME.get(rp[0], f"?{rp[0]}"), "vals": [{"": 0, "v": 1}.get(v, v) if isinstance(v, str) else v for v in vals]})
     return out
 
 
@@ -102,7 +107,7 @@ def run_walk(tid, inputs, seed):
                 if inp["v"] == "sv":
                     h.status_variables[10].value = inp["x"]
                 else:
-                    h.data_values[20].value = inp["x"]
+                    h.data_values[20].value = DVTEXT[inp["x"]]
             elif k == "Trigger":
                 h.trigger_collection_events([CID[inp["c"]]])
             elif k == "TriggerMany":
